@@ -49,7 +49,7 @@ def gen_history(rng, tier, exhaustive=None):
             ops.append(("update_dict", s, [(k, None) for k in ks]))
         elif x < 0.92:
             k = rng.randrange(nkeys)
-            ops.append(("ngram", s, k, rng.choice([1, 2, 3, max(len(keys[k]), 1), len(keys[k]) + 1])))
+            ops.append(("ngram", s, k, rng.choice([1, 2, 3, max(len(keys[k]), 1), len(keys[k]) + 1, 255, 256, 257, 65536, 2**32 + 1])))
         else:
             ops.append(("saveload", s, rng.random() < 0.3))
     return {"depth": depth, "width": width, "keys": [k.hex() for k in keys], "nsk": nsk, "ops": ops}
@@ -213,7 +213,7 @@ class LinearRun:
     def oracle_failures(self, props):
         """evaluate the property oracles on the recorded real behaviour"""
         fails = []
-        nk = len(self.allkeys)
+        nk = nk_all = len(self.allkeys)
         cols = [self.cols(k) for k in range(nk)]
         if "C01" in props:
             st = self.truth()
@@ -229,6 +229,7 @@ class LinearRun:
             if s["op"] == "add" and ("C05" in props or "C18" in props):
                 k, v = s["kid"], s["v"]
                 qb, qa = s["qb"], s["qa"]
+                nk = len(qb)  # keys known at that time (add_ngram registers window keys later)
                 tb, na_b, nr_b = s["before"]
                 ta, na_a, nr_a = s["after"]
                 if "C05" in props:
@@ -255,6 +256,7 @@ class LinearRun:
                             if ta[r][c] < tb[r][c]:
                                 fails.append({"what": f"C18 counter ({r},{c}) decreased {tb[r][c]} -> {ta[r][c]} on add"})
             if s["op"] == "merge" and ("C09" in props or "C18" in props):
+                nk = len(s["qa"])
                 A, na, nra = s["before_a"]
                 B, nb, nrb = s["before_b"]
                 R, nr_, nrr = s["after"]
